@@ -19,3 +19,6 @@ int cmd (string arg) {
 void net_dead () { VL ("t netdead " + oid); run ("netdead"); }
 // write_prompt(): applied by print_prompt() after every served line unless an input_to() is pending
 void write_prompt () { VL ("t prompt " + oid); run ("prompt"); write ("> "); }
+// receive_snoop(): applied for everything the snooped user types (get_user_data) and for every output it gets
+// (add_message); the scripted snooper acts on typed lines only (raw input ends with CR LF)
+void receive_snoop (string s) { if (strsrch (s, "\r") < 0) return; VL ("t snoop " + oid); run ("snoop"); }
